@@ -7,6 +7,7 @@ require (
 	github.com/gogo/protobuf v1.3.1
 	github.com/irismod/service v0.0.0
 	github.com/tendermint/tendermint v0.34.0-rc3.0.20200907055413-3359e0bf2f84
+	google.golang.org/grpc v1.32.0
 )
 
 replace (
